@@ -69,3 +69,32 @@ class Learn2(Task):
 
     def execute(self):
         pass
+
+
+# ---- a job that depends on a deprecated class only through the output of an upstream task
+class PrepOut(Config):
+    __xpmid__ = "dep.prepout"
+    v: Param[int] = 0
+
+
+class Prep(Task):
+    __xpmid__ = "dep.prep"
+    x: Param[int]
+    p: Param[NewA]
+    code: Meta[int] = 0
+
+    def task_outputs(self, dep):
+        return dep(PrepOut(v=self.x))
+
+    def execute(self):
+        pass
+
+
+class Use(Task):
+    __xpmid__ = "dep.use"
+    x: Param[int]
+    data: Param[PrepOut]
+    code: Meta[int] = 0
+
+    def execute(self):
+        pass
